@@ -39,6 +39,11 @@ import (
 //     other  : () | (t)   staged in another, in-progress transaction with table id t
 //   op = (0 mode n perm) Commit with a fault | (1 perm) Commit
 //      | (2 mode n perm) Discard with a fault | (3 perm) Discard
+//      | (4 half victim perm) Commit while ONE SQL statement inside SetWithLog of heads/<victim> fails
+//        (half 0: the reflogs INSERT, half 1: the refs upsert), injected BELOW the ref.Store method by a
+//        SQLite trigger (RAISE(ABORT)) that is dropped again before the next op.  SetWithLog must be
+//        atomic: the victim neither moves nor gets a log row.  From this op on, while not all branches
+//        have landed, moved/newobjs are 9 and snap is () (how many others landed first is map order)
 //     mode 0: the n-th (0-based) and all later MUTATING store calls fail (= crash after n writes)
 //     mode 1: only the n-th mutating store call fails
 //     mode 2: the n-th store call of ANY kind (reads too) fails; intermediate state judged by the
@@ -570,7 +575,7 @@ func (e *c14Env) moved() int {
 	return n
 }
 
-func (e *c14Env) observe(errClass int, amb bool) *xt.T {
+func (e *c14Env) observe(errClass int, amb, tamb bool) *xt.T {
 	mv := e.moved()
 	snap := xt.N()
 	sc := 0
@@ -579,12 +584,15 @@ func (e *c14Env) observe(errClass int, amb bool) *xt.T {
 			sc++
 		}
 	}
-	if (mv == 0 || mv == e.nStaged) && (sc == 0 || sc == e.nStaged) {
+	if ((mv == 0 && !tamb) || mv == e.nStaged) && (sc == 0 || sc == e.nStaged) {
 		snap = xt.N(e.snapshot())
 	}
 	no := e.objCount() - e.baseObjs
-	if amb && mv != e.nStaged {
+	if (amb || tamb) && mv != e.nStaged {
 		no = 9
+	}
+	if tamb && mv != e.nStaged {
+		mv = 9
 	}
 	return xt.N(xt.LI(errClass), xt.N(xt.LI(mv), xt.LI(no), xt.LI(e.status()), xt.LI(sc)), snap)
 }
@@ -601,6 +609,39 @@ func c14LogsEqual(a, b []c14Log) bool {
 		}
 	}
 	return true
+}
+
+const c14NoLog = "reflog is not the old reflog plus one entry (old head, new head, txid)"
+const c14TriggerMsg = "c14 injected sql failure"
+
+// arm installs a trigger that makes one SQL statement inside SetWithLog of heads/<victim> fail
+func (e *c14Env) arm(half, victim int) {
+	name := "heads/nosuchbranch"
+	if victim < len(e.names) {
+		name = ref.HeadRef(e.names[victim])
+	}
+	q := strings.ReplaceAll(name, "'", "''")
+	body := " BEGIN SELECT RAISE(ABORT, '" + c14TriggerMsg + "'); END"
+	var stmts []string
+	if half == 0 {
+		stmts = []string{"CREATE TRIGGER c14_f1 BEFORE INSERT ON reflogs WHEN NEW.ref = '" + q + "'" + body}
+	} else {
+		stmts = []string{
+			"CREATE TRIGGER c14_f1 BEFORE INSERT ON refs WHEN NEW.name = '" + q + "'" + body,
+			"CREATE TRIGGER c14_f2 BEFORE UPDATE ON refs WHEN NEW.name = '" + q + "'" + body,
+		}
+	}
+	for _, st := range stmts {
+		_, err := e.sqldb.Exec(st)
+		c14Must(err)
+	}
+}
+
+func (e *c14Env) disarm() {
+	for _, t := range []string{"c14_f1", "c14_f2"} {
+		_, err := e.sqldb.Exec("DROP TRIGGER IF EXISTS " + t)
+		c14Must(err)
+	}
 }
 
 const c14ParentDropped = "existing branch but the commit has no parent"
@@ -641,7 +682,7 @@ func (e *c14Env) landed(i int) string {
 	lg := e.logs(i)
 	want := append([]c14Log{{old: e.baseHeads[i], new: h, txid: e.me[:]}}, e.baseLogs[i]...)
 	if !c14LogsEqual(lg, want) {
-		return "reflog is not the old reflog plus one entry (old head, new head, txid)"
+		return c14NoLog
 	}
 	return ""
 }
@@ -686,6 +727,9 @@ func (e *c14Env) checkState() Verdict {
 			continue
 		}
 		if why := e.landed(i); why != "" {
+			if why == c14NoLog && c14LogsEqual(e.logs(i), e.baseLogs[i]) {
+				return Fail("moved-without-log", "branch %s moved but its reflog has no entry for the move (ref update and log row are not atomic)", e.names[i])
+			}
 			if why == c14ParentDropped {
 				return Fail("parent-dropped", "branch %s moved onto a commit without parent: its history is orphaned", e.names[i])
 			}
@@ -757,11 +801,16 @@ func runC14(ctx *Ctx, c *xt.T) (*xt.T, Verdict) {
 	}
 	masked := false
 	faultedCommits := 0
+	tamb := false
 	for opi, op := range c.Kids[2].Kids {
 		kind := int(op.Kids[0].N)
 		f := &c14Fault{mode: -1}
-		if kind == 0 {
+		if kind == 0 || kind == 4 {
 			faultedCommits++
+		}
+		if kind == 4 {
+			tamb = true
+			e.arm(int(op.Kids[1].N), int(op.Kids[2].N))
 		}
 		if kind == 0 || kind == 2 {
 			f.mode = int(op.Kids[1].N)
@@ -779,11 +828,21 @@ func runC14(ctx *Ctx, c *xt.T) (*xt.T, Verdict) {
 			logsBefore[i] = e.logs(i)
 		}
 		var err error
-		isCommit := kind == 0 || kind == 1
+		isCommit := kind == 0 || kind == 1 || kind == 4
 		if isCommit {
 			_, err = transaction.Commit(db, rs, e.me)
 		} else {
 			err = transaction.Discard(rs, e.me)
+		}
+		if kind == 4 {
+			e.disarm()
+			if err != nil && strings.Contains(err.Error(), c14TriggerMsg) {
+				f.fired = true
+			}
+			victim := int(op.Kids[2].N)
+			if f.fired && victim < len(specs) && (!bytes.Equal(headsBefore[victim], e.head(victim)) || !c14LogsEqual(logsBefore[victim], e.logs(victim))) {
+				bad(Fail("setwithlog-not-atomic", "a statement inside SetWithLog of heads/%s failed but its head or reflog changed", e.names[victim]))
+			}
 		}
 		ec := 0
 		if err != nil {
@@ -889,7 +948,7 @@ func runC14(ctx *Ctx, c *xt.T) (*xt.T, Verdict) {
 		if masked {
 			ec = 3
 		}
-		out.Add(e.observe(ec, faultedCommits >= 2))
+		out.Add(e.observe(ec, faultedCommits >= 2, tamb))
 	}
 	return out, v
 }
@@ -932,6 +991,9 @@ func (g *c14Gen) opDF(mode, n, k int) *xt.T {
 	return xt.N(xt.LI(2), xt.LI(mode), xt.LI(n), c14Perm(g.ctx, k))
 }
 func (g *c14Gen) opD(k int) *xt.T { return xt.N(xt.LI(3), c14Perm(g.ctx, k)) }
+func (g *c14Gen) opCT(half, victim, k int) *xt.T {
+	return xt.N(xt.LI(4), xt.LI(half), xt.LI(victim), c14Perm(g.ctx, k))
+}
 
 func (g *c14Gen) emit(tag string, flags int, specs []c14Spec, ops ...*xt.T) {
 	bs := xt.N()
@@ -975,6 +1037,19 @@ func (g *c14Gen) families(tag string, specs []c14Spec, full bool) {
 			g.emit(tag, 0, specs, g.opDF(1, n, k), g.opD(k), g.opD(k), g.opC(k))
 		}
 	}
+	// a single SQL statement inside SetWithLog of each branch fails (below the ref.Store method)
+	for victim := 0; victim < k; victim++ {
+		for half := 0; half <= 1; half++ {
+			g.emit(tag, 0, specs, g.opCT(half, victim, k), g.opC(k), g.opC(k), g.opD(k))
+			g.ctx.Count("sql_statement_faults")
+			if full || g.ctx.Pick(2) == 0 {
+				// after a crash that landed nothing yet (later cut points make "has the victim landed" depend on
+				// map order), and twice in a row on the same victim, the other half
+				g.emit(tag, 0, specs, g.opCF(0, g.ctx.Pick(2), k), g.opCT(half, victim, k), g.opC(k), g.opC(k))
+				g.emit(tag, 0, specs, g.opCT(half, victim, k), g.opCT(1-half, victim, k), g.opC(k), g.opD(k))
+			}
+		}
+	}
 	// two crashes in a row, then completion
 	for n1 := 0; n1 < W; n1++ {
 		for n2 := 0; n2 <= W-n1; n2++ {
@@ -1010,6 +1085,10 @@ func genC14(ctx *Ctx) []Case {
 	g.emit("witness", 0, w, g.opC(2), g.opD(2))                  // Discard after Commit deleted staged refs
 	g.emit("witness", 0, w, g.opCF(0, 3, 2), g.opC(2), g.opD(2)) // object stored, ref not yet
 	g.emit("witness", 1, w, g.opC(2), g.opD(2), g.opCF(0, 0, 2))
+	// seeded: SetWithLog split into Set + INSERT reflogs (ref moves before its log row exists)
+	g.emit("witness", 0, w, g.opCT(0, 0, 2), g.opC(2), g.opC(2))
+	g.emit("witness", 0, w, g.opCT(0, 1, 2), g.opC(2), g.opC(2))
+	g.emit("witness", 0, w, g.opCT(1, 0, 2), g.opC(2), g.opD(2))
 	// ed29119: a failing read of the branch head (5th store call) dropped the parent
 	g.emit("witness", 0, []c14Spec{S(1, 1, false, -1)}, g.opCF(2, 4, 1), g.opC(1))
 	g.emit("witness", 0, []c14Spec{S(0, 1, true, -1), S(3, 2, false, -1)}, g.opCF(2, 4, 2), g.opC(2), g.opC(2), g.opD(2))
